@@ -372,6 +372,14 @@ func c09(r *core.Run) {
 			for _, in := range b.Instrs {
 				if st, ok := in.(*ssa.Store); ok {
 					if f, ok := core.FieldOf(st.Addr); ok && f.Struct == "resetEvent" {
+						// (a list that is empty may be replaced by nil afterwards: "sent as if never provided")
+						if k, isC := st.Val.(*ssa.Const); isC && k.IsNil() && got[f.Name] != "" {
+							continue
+						}
+						if prev, seen := got[f.Name]; seen && prev != "" && prev != paramRoot(st.Val) {
+							got[f.Name] = prev + "|" + paramRoot(st.Val)
+							continue
+						}
 						got[f.Name] = paramRoot(st.Val)
 					}
 				}
